@@ -1,0 +1,185 @@
+//go:build verif
+
+package dastard
+
+// Hooks for the data-race check (property C17) of /verif.  Compiled only with `-tags verif`.
+//
+// verifAcc(name, obj, isWrite) marks an access to a piece of state shared between goroutines,
+// verifSync(kind, name, obj) a synchronisation operation.  Two modes:
+//
+//   log   (VerifC17Log(true), together with VerifPointsOn): every call appends one entry to the trace
+//         of verif_point_on.go (same lock, so the entries of all goroutines are totally ordered):
+//            "acc.<r|w>.<name>#<object id>"     "syn.<kind>.<name>#<object id>"
+//         Conventions that make the order of the entries consistent with the order of the operations:
+//         send / close / unlock / wgadd / wgdone / spawn are logged BEFORE the operation,
+//         recv / recvc / lock / wgwait / start AFTER it.
+//   quiet (VerifC17Quiet(true)): nothing is logged and NO lock is taken, so the hooks add no
+//         happens-before edge of their own: this is the mode for binaries built with -race.
+//
+// In both modes a call may yield the processor at random (VerifC17Yield) to perturb the schedule.
+//
+// The rest of the file builds scripted sources for the out-of-tree harness: an AbacoSource fed by a
+// callback, a LanceroSource around a scripted card, and their installation in a SourceControl.
+
+import (
+	"fmt"
+	"math/rand/v2"
+	"runtime"
+	"sync/atomic"
+	"time"
+
+	"github.com/usnistgov/dastard/lancero"
+	"github.com/usnistgov/dastard/packets"
+)
+
+var (
+	verifC17Quiet    atomic.Bool
+	verifC17LogOn    atomic.Bool
+	verifC17YieldPct atomic.Int32
+	verifC17IDs      = map[interface{}]int{} // guarded by verifPt's lock; the keys keep the objects alive (no address reuse)
+)
+
+// VerifC17Quiet switches the lock-free mode (for -race binaries) on or off.
+func VerifC17Quiet(on bool) { verifC17Quiet.Store(on) }
+
+// VerifC17Log switches logging of accesses and synchronisation operations on or off.
+func VerifC17Log(on bool) {
+	verifPt.Lock()
+	verifC17IDs = map[interface{}]int{}
+	verifPt.Unlock()
+	verifC17LogOn.Store(on)
+}
+
+// VerifC17Yield sets the percentage of hook calls that yield the processor.
+func VerifC17Yield(pct int) { verifC17YieldPct.Store(int32(pct)) }
+
+// verifC17MaybeYield uses the runtime's per-thread generator: no lock, no shared counter.
+func verifC17MaybeYield() {
+	pct := verifC17YieldPct.Load()
+	if pct <= 0 {
+		return
+	}
+	r := rand.Uint32()
+	if int32(r%100) >= pct {
+		return
+	}
+	if r&0x100 == 0 {
+		runtime.Gosched()
+	} else {
+		time.Sleep(time.Duration((r>>9)%150) * time.Microsecond)
+	}
+}
+
+func verifC17Entry(prefix, name string, obj interface{}) {
+	if verifC17Quiet.Load() {
+		verifC17MaybeYield()
+		return
+	}
+	if !verifC17LogOn.Load() {
+		return
+	}
+	verifPt.Lock()
+	if verifPt.on {
+		id := 0
+		if obj != nil {
+			var ok bool
+			if id, ok = verifC17IDs[obj]; !ok {
+				id = len(verifC17IDs) + 1
+				verifC17IDs[obj] = id
+			}
+		}
+		verifPt.log = append(verifPt.log, VerifEvent{fmt.Sprintf("%s.%s#%d", prefix, name, id), VerifGoID()})
+		verifBump()
+	}
+	verifPt.Unlock()
+	verifC17MaybeYield()
+}
+
+func verifAcc(name string, obj interface{}, isWrite bool) {
+	if isWrite {
+		verifC17Entry("acc.w", name, obj)
+	} else {
+		verifC17Entry("acc.r", name, obj)
+	}
+}
+
+func verifSync(kind, name string, obj interface{}) { verifC17Entry("syn."+kind, name, obj) }
+
+// VerifC17Point is verifPoint's lock-free replacement body in -race builds (the harness overlays
+// verif_point_on.go with a copy whose verifPoint starts with a call of this function).
+func VerifC17Point() bool {
+	if verifC17Quiet.Load() {
+		verifC17MaybeYield()
+		return true
+	}
+	return false
+}
+
+// ---------------------------------------------------------------------------------------------
+// scripted Abaco producer: every read of the reader loop returns what the callback returns
+
+type verifC17Producer struct {
+	sample []*packets.Packet
+	next   func() []*packets.Packet
+}
+
+func (p *verifC17Producer) ReadAllPackets() ([]*packets.Packet, error) { return p.next(), nil }
+func (p *verifC17Producer) samplePackets(time.Duration) ([]*packets.Packet, error) {
+	return p.sample, nil
+}
+func (p *verifC17Producer) start() error        { return nil }
+func (p *verifC17Producer) discardStale() error { return nil }
+func (p *verifC17Producer) stop() error         { return nil }
+
+// VerifC17Abaco turns as into an AbacoSource on one scripted producer: `sample` is what the Sample phase sees,
+// `next` is called by the real reader loop on every tick.
+func VerifC17Abaco(as *AbacoSource, sample []*packets.Packet, next func() []*packets.Packet) {
+	as.producers = []PacketProducer{&verifC17Producer{sample: sample, next: next}}
+}
+
+// VerifC17Lancero turns ls into a single-card LanceroSource of ncols x nrows around the given card, as
+// Configure would leave it (Configure itself needs ~/.cringe/cringeGlobals.json).
+func VerifC17Lancero(ls *LanceroSource, card lancero.Lanceroer, ncols, nrows, lsync int) {
+	dev := &LanceroDevice{devnum: 0, nrows: nrows, ncols: ncols, lsync: lsync, clockMHz: 125, card: card}
+	ls.devices = map[int]*LanceroDevice{0: dev}
+	ls.ncards = 1
+	ls.active = []*LanceroDevice{dev}
+	ls.clockMHz = 125
+	ls.nsamp = 1
+	ls.firstRowChanNum = 1
+	ls.configError = nil
+}
+
+// VerifC17Sources returns the sources of a SourceControl.
+func (s *SourceControl) VerifC17Sources() (*TriangleSource, *SimPulseSource, *AbacoSource, *LanceroSource) {
+	return s.triangle, s.simPulses, s.abaco, s.lancero
+}
+
+// VerifC17NewControl is the part of RunRPCServer that creates the SourceControl and its heartbeat
+// goroutine (same body), without the TCP listener and the stored configuration.
+func VerifC17NewControl(npre, nsamp int) *SourceControl {
+	sourceControl := NewSourceControl()
+	sourceControl.clientUpdates = clientMessageChan
+	mapServer := newMapServer()
+	mapServer.clientUpdates = clientMessageChan
+	sourceControl.mapServer = mapServer
+	sourceControl.status.Npresamp = npre
+	sourceControl.status.Nsamples = nsamp
+	sourceControl.status.SamplePeriod = 10 * time.Microsecond
+	sourceControl.ActiveSource = sourceControl.triangle
+	go func() {
+		broadcastTicker := time.NewTicker(300 * time.Millisecond)
+		for {
+			select {
+			case <-broadcastTicker.C:
+				sourceControl.broadcastHeartbeat()
+			case h := <-sourceControl.heartbeats:
+				sourceControl.totalData.HWactualMB += h.HWactualMB
+				sourceControl.totalData.DataMB += h.DataMB
+				sourceControl.totalData.Time += h.Time
+				sourceControl.totalData.Running = h.Running
+			}
+		}
+	}()
+	return sourceControl
+}
